@@ -19,12 +19,21 @@ func NewSigningResponse(gr *types.QuerySigningResponse) *SigningResponse {
 
 // GetMemberIDs returns all assigned member's id of the assigned members
 func (sr SigningResponse) GetMemberIDs() []tss.MemberID {
+	if sr.SigningResult.CurrentSigningAttempt == nil {
+		return nil
+	}
+
 	assignedMembers := types.AssignedMembers(sr.SigningResult.CurrentSigningAttempt.AssignedMembers)
 	return assignedMembers.MemberIDs()
 }
 
 // GetAssignedMember returns assigned member of the specific address
 func (sr SigningResponse) GetAssignedMember(address string) (types.AssignedMember, error) {
+	// the attempt's data is pruned once it expires: the query then returns no current attempt
+	if sr.SigningResult.CurrentSigningAttempt == nil {
+		return types.AssignedMember{}, fmt.Errorf("signing has no current attempt")
+	}
+
 	for _, am := range sr.SigningResult.CurrentSigningAttempt.AssignedMembers {
 		if am.Address == address {
 			return am, nil
